@@ -164,6 +164,12 @@ def oracle(ctx, kind, p):
                       'indicate_branches', 'check', 'triples'):
                 o[k] = False
             o['reconfigure'] = o['rearrange'] = o['make_variables'] = None
+        elif p['i'] % 9 == 7:
+            # --canonicalize-roles and nothing else that changes content (its streams are over-inverted)
+            for k in ('reify_edges', 'dereify_edges', 'reify_attributes', 'indicate_branches', 'check', 'triples'):
+                o[k] = False
+            o['reconfigure'] = o['rearrange'] = o['make_variables'] = None
+            o['canonicalize_roles'] = True
         elif p['i'] % 9 == 4:
             # --triples and nothing else that changes content
             for k in ('canonicalize_roles', 'reify_edges', 'dereify_edges', 'reify_attributes',
@@ -192,11 +198,17 @@ def oracle(ctx, kind, p):
                                    no_constants_like=like)
                 if not _trees.wellformed(node, rm):
                     continue
-                if not messy and o['canonicalize_roles'] and rng.random() < 0.5:
+                if not messy and o['canonicalize_roles'] and (rng.random() < 0.5 or p['i'] % 9 == 7):
                     # over-inverted spellings of the same roles (pairs of '-of' added): with
                     # --canonicalize-roles the stream means the same and the output is a fixed point
+                    hot = set(rm.normalizations) | {k[:-3] for k in rm.normalizations if k.endswith('-of')}
+
                     def over(nd):
-                        return (nd[0], [((r.partition('~')[0] + '-of-of' * rng.choice([0, 0, 1, 1, 2])
+                        # (roles that the normalisation table mentions, in either direction, nearly always
+                        #  get a pair: ':mod-of' -> ':mod-of-of-of' must still end up as ':domain')
+                        return (nd[0], [((r.partition('~')[0]
+                                          + '-of-of' * rng.choice([1, 1, 1, 2, 0] if r.partition('~')[0] in hot
+                                                                  else [0, 0, 1, 1, 2])
                                           + r.partition('~')[1] + r.partition('~')[2]) if r != '/' else r,
                                          over(t) if isinstance(t, tuple) else t) for r, t in nd[1]])
                     node = over(node)
